@@ -228,7 +228,7 @@ def main() -> int:
     for r in jobs_out:
         v = r.get("verdict")
         tag = f"{r.get('harness')}{r.get('part') or ''}"
-        if v == "CONFIRMED":
+        if v in ("CONFIRMED", "KNOWN_REGION"):
             continue
         if v == "CANNOT_CONFIRM":
             inconclusive.append(tag)
@@ -282,7 +282,7 @@ def main() -> int:
     n_paths = sum(int(r.get("paths") or 0) for r in jobs_out)
     n_reached = sum(int(r.get("reached") or 0) for r in jobs_out)
     n_distinct = sum(int(r.get("distinct_vectors") or 0) for r in jobs_out)
-    confirmed = sum(1 for r in jobs_out if r.get("verdict") == "CONFIRMED")
+    confirmed = sum(1 for r in jobs_out if r.get("verdict") in ("CONFIRMED", "KNOWN_REGION"))
     for r in jobs_out:
         for smp in r.get("samples") or []:
             if len(samples) < 24:
